@@ -17,14 +17,14 @@
 (* documented reading itself is unambiguous under the stated side conditions (ASSUME).          *)
 (* The harness builds every layout TLC reaches and compares house, run and the words handed     *)
 (* to Builder.dispatch with the canonical layout (vf/families/layout.py).                       *)
-EXTENDS Integers, Sequences, FiniteSets, TLC, Json, IOUtils
+EXTENDS Integers, Sequences, SequencesExt, FiniteSets, TLC, Json, IOUtils
 
 CONSTANTS MaxActs,   \* number of layout actions applied to the canonical layout
-          Emit       \* TRUE: print every layout reached (one JSON object per line) for the harness
+          Emit       \* "all": print every layout reached (exhaustive search); "final": print the layout after
+                     \* MaxActs actions (simulation); "none".  One JSON object per line, read by the harness
 
 \* the abstract script arrives as JSON (words may contain quotes and #): {"cmds": [[word, ...], ...]}
 Input == JsonDeserialize(IOEnv.LAYOUT_INPUT)
-Cmds == Input.cmds   \* sequence of commands; a command is a non-empty sequence of words
 
 Comparisons == {"==", "<", "<=", ">=", ">", "!="}
 Connectives == {"to", "by", "with", "from", "per", "for", "cum", "qua", "via", "as", "at", "in", "of", "on",
@@ -32,7 +32,8 @@ Connectives == {"to", "by", "with", "from", "per", "for", "cum", "qua", "via", "
 Reserved == Connectives \cup Comparisons
 
 \* side conditions under which the documented rule is unambiguous
-ASSUME \A i \in 1..Len(Cmds) : Len(Cmds[i]) > 0 /\ Cmds[i][1] \notin Reserved
+WellFormed(cs) == \A i \in 1..Len(cs) : Len(cs[i]) > 0 /\ cs[i][1] \notin Reserved
+ASSUME WellFormed(Input.cmds)
 
 \* a physical line: kind "code" (words), "blank" or "comment"; ind = leading white space (0 none, 1 two spaces,
 \* 2 six spaces, 3 a tab); bs = ends in a backslash; tc = carries a trailing comment
@@ -40,15 +41,19 @@ Code(w, ind, bs, tc) == [kind |-> "code", toks |-> w, ind |-> ind, bs |-> bs, tc
 BlankLine == [kind |-> "blank", toks |-> <<>>, ind |-> 0, bs |-> FALSE, tc |-> FALSE]
 CommentLine == [kind |-> "comment", toks |-> <<>>, ind |-> 0, bs |-> FALSE, tc |-> FALSE]
 
-VARIABLES lines, n
-vars == <<lines, n>>
+VARIABLES Cmds,      \* the abstract script: sequence of commands, a command is a non-empty sequence of words
+                     \* (read once from the input; never changes)
+          lines,     \* the physical lines
+          n,         \* number of layout actions applied
+          fin        \* the layout has been handed over (simulation only)
+vars == <<Cmds, lines, n, fin>>
 
-Canonical == [i \in 1..Len(Cmds) |-> Code(Cmds[i], 0, FALSE, FALSE)]
-Init == lines = Canonical /\ n = 0
+Canonical(cs) == [i \in 1..Len(cs) |-> Code(cs[i], 0, FALSE, FALSE)]
+Init == Cmds = Input.cmds /\ lines = Canonical(Cmds) /\ n = 0 /\ fin = FALSE
 
 Replace(i, new) == SubSeq(lines, 1, i - 1) \o new \o SubSeq(lines, i + 1, Len(lines))
-InsertAt(i, l) == SubSeq(lines, 1, i - 1) \o <<l>> \o SubSeq(lines, i, Len(lines))
-Step == n < MaxActs /\ n' = n + 1
+InsertLine(i, l) == SubSeq(lines, 1, i - 1) \o <<l>> \o SubSeq(lines, i, Len(lines))
+Step == n < MaxActs /\ n' = n + 1 /\ UNCHANGED <<Cmds, fin>>
 
 Indent(i, k) == /\ Step
                 /\ lines[i].ind # k
@@ -68,8 +73,8 @@ SplitConnective(i, j) == LET l == lines[i] IN
                               Code(SubSeq(l.toks, j + 1, Len(l.toks)), 0, l.bs, l.tc) >>)
 
 Separable(i) == IF i = 1 THEN TRUE ELSE ~lines[i - 1].bs     \* a new line may be put before position i
-InsertBlank(i) == Step /\ Separable(i) /\ lines' = InsertAt(i, BlankLine)
-InsertComment(i) == Step /\ Separable(i) /\ lines' = InsertAt(i, CommentLine)
+InsertBlank(i) == Step /\ Separable(i) /\ lines' = InsertLine(i, BlankLine)
+InsertComment(i) == Step /\ Separable(i) /\ lines' = InsertLine(i, CommentLine)
 
 TrailComment(i) == /\ Step
                    /\ lines[i].kind = "code" /\ ~lines[i].bs /\ ~lines[i].tc
@@ -81,35 +86,36 @@ AnySplitConnective == \E i \in 1..Len(lines) : \E j \in 1..Len(lines[i].toks) : 
 AnyInsertBlank == \E i \in 1..(Len(lines) + 1) : InsertBlank(i)
 AnyInsertComment == \E i \in 1..(Len(lines) + 1) : InsertComment(i)
 AnyTrailComment == \E i \in 1..Len(lines) : TrailComment(i)
-Next == AnyIndent \/ AnySplitBackslash \/ AnySplitConnective \/ AnyInsertBlank \/ AnyInsertComment \/ AnyTrailComment
+Finish == /\ Emit = "final" /\ n = MaxActs /\ ~fin
+          /\ fin' = TRUE /\ UNCHANGED <<Cmds, lines, n>>
+          /\ PrintT(ToJson([n |-> n, lines |-> lines]))
+Next == \/ AnyIndent \/ AnySplitBackslash \/ AnySplitConnective \/ AnyInsertBlank \/ AnyInsertComment \/ AnyTrailComment
+        \/ Finish
 Spec == Init /\ [][Next]_vars
 
 \* ------------------------------------------------------------------ the documented reading
-\* words of the logical line that starts at physical line i, and the index of the physical line after it
-RECURSIVE Logical(_, _, _)
-Logical(ls, i, acc) ==
-    LET l == ls[i]
-        acc2 == IF acc.cut THEN acc ELSE [words |-> acc.words \o l.toks, cut |-> l.tc \/ l.kind = "comment"] IN
-    IF l.bs /\ i < Len(ls) THEN Logical(ls, i + 1, acc2) ELSE [words |-> acc2.words, next |-> i + 1]
-
-RECURSIVE JoinFrom(_, _, _)
-JoinFrom(ls, i, cmds) ==
-    IF i > Len(ls) THEN cmds
-    ELSE LET g == Logical(ls, i, [words |-> <<>>, cut |-> FALSE])
-             w == g.words IN
-         IF w = <<>> THEN JoinFrom(ls, g.next, cmds)
-         ELSE IF w[1] \in Reserved /\ Len(cmds) > 0 /\ cmds[Len(cmds)][1] # "load"
-              THEN JoinFrom(ls, g.next, [cmds EXCEPT ![Len(cmds)] = @ \o w])
-              ELSE JoinFrom(ls, g.next, Append(cmds, w))
-Join(ls) == JoinFrom(ls, 1, <<>>)
+\* the file is read line by line (a left fold, so that long files need no deep recursion):
+\*   cmds  the commands read so far;  cur  the words of the logical line being joined;
+\*   cut   a comment has started on the joined line;  open  the previous physical line ended in a backslash
+EndLine(cmds, w) ==
+    IF w = <<>> THEN cmds
+    ELSE IF w[1] \in Reserved /\ Len(cmds) > 0 /\ cmds[Len(cmds)][1] # "load"
+         THEN [cmds EXCEPT ![Len(cmds)] = @ \o w]      \* continuation of the command before
+         ELSE Append(cmds, w)
+ReadLine(acc, l) ==
+    LET w == IF acc.cut THEN acc.cur ELSE acc.cur \o l.toks
+        c == acc.cut \/ l.tc \/ l.kind = "comment" IN
+    IF l.bs THEN [cmds |-> acc.cmds, cur |-> w, cut |-> c, open |-> TRUE]
+    ELSE [cmds |-> EndLine(acc.cmds, w), cur |-> <<>>, cut |-> FALSE, open |-> FALSE]
+Join(ls) == LET r == FoldLeft(ReadLine, [cmds |-> <<>>, cur |-> <<>>, cut |-> FALSE, open |-> FALSE], ls) IN
+            IF r.open THEN EndLine(r.cmds, r.cur) ELSE r.cmds      \* a backslash on the last line joins nothing
 
 \* ------------------------------------------------------------------ properties
 TypeOK == /\ n \in 0..MaxActs
           /\ \A i \in 1..Len(lines) : lines[i].kind \in {"code", "blank", "comment"} /\ lines[i].ind \in 0..3
 LayoutPreserved == Join(lines) = Cmds
 \* no word is lost, duplicated or reordered by a layout action
-RECURSIVE FlatFrom(_, _)
-FlatFrom(ls, i) == IF i > Len(ls) THEN <<>> ELSE ls[i].toks \o FlatFrom(ls, i + 1)
-WordsKept == [][FlatFrom(lines', 1) = FlatFrom(lines, 1)]_vars
-EmitLayout == Emit => PrintT(ToJson([n |-> n, lines |-> lines]))
+Flat(ls) == FoldLeft(LAMBDA acc, l : acc \o l.toks, <<>>, ls)
+WordsKept == [][Flat(lines') = Flat(lines)]_vars
+EmitLayout == Emit = "all" => PrintT(ToJson([n |-> n, lines |-> lines]))
 =============================================================================
